@@ -5,6 +5,28 @@ import gen_prog
 import proglayer
 
 
+# canonical multi-task programs per primitive whose schedules are enumerated deeply (all schedules with at most two
+# preemptions, up to 2500 / 20000 of them): several waiters, wake-up then wait again, drops while others are blocked
+SYSTEMATIC = {
+    "condvar": ["a0,m,v sp1;sp2;sp3;yd;cn2;yd;cn2;jn0;jn1;jn2|lk1;cw2.1;ul1|lk1;cw2.1;ul1|yd;yd;lk1;cw2.1;ul1",
+                "a0,m,v sp1;sp2;sp3;cn2;cn2;cn2;jn0;jn1;jn2|lk1;cw2.1;ul1|lk1;cw2.1;ul1|lk1;cw2.1;ul1",
+                "a0,m,v sp1;sp2;cn2;yd;ca2;cn2;jn0;jn1|lk1;cw2.1;ul1;lk1;cw2.1;ul1|yd;lk1;cw2.1;ul1"],
+    "park": ["a0,m sp1;sp2;ut1;yd;ut2;ut1;jn0;jn1|pk;a0.add.1;pk|lk1;yd;ul1;pk",
+             "a0,m sp1;lk1;ut1;yd;ul1;ut1;jn0|pk;lk1;ul1;pk"],
+    "barrier": ["a0,b2 sp1;sp2;bw1;bw1;jn0;jn1|bw1;yd;bw1|bw1;bw1"],
+    "chan": ["a0,c0,e sp1;sp2;rc1;yd;rc1;dr1;jn0;jn1|sd1.1.5;ts1.1.6|sd1.2.7",
+             "a0,c1,e sp1;sp2;rc1;rc1;tc1;dr1;jn0;jn1|sd1.1.5;sd1.1.6;dt1.1|sd1.2.7;ts1.2.8",
+             "a0,c1,e sp1;sp2;sd1.0.1;sd1.0.2;dt1.0;jn0;jn1|rc1;yd;rc1;rc1|-"],
+    "sem": ["a0,s1:f sp1;sp2;sa1.1;yd;sr1.1;sr1.1;jn0;jn1|sa1.2;sr1.2|st1.1;sa1.1;sr1.1",
+            "a0,s1:u sp1;sp2;sa1.1;yd;sr1.2;jn0;jn1|sa1.2;sr1.1|sa1.1;st1.1"],
+    "acq": ["a0,q,s1:f qn1.0.2.2;qp1.0.2;sp1;sp2;yd;qd1.0.2;sr2.1;jn0;jn1|sa2.1;sr2.1|sa2.1",
+            "a0,q,s0:f qn1.0.2.1;qp1.0.2;sp1;sr2.1;jn0;qp1.0.2;qd1.0.2|qp1.0.2;yd"],
+    "mutex": ["a0,m,m sp1;sp2;lk1;yd;lk2;ul2;ul1;jn0;jn1|lk2;yd;ul2;lk1;ul1|tl1;a0.add.1"],
+    "rwlock": ["a0,w sp1;sp2;rd1;yd;ru1;wr1;ru1;jn0;jn1|wr1;a0.add.1;ru1|rd1;tr1;a0.ld"],
+    "atomic": ["a0,a1 sp1;sp2;a0.sw.1;a1.ld;jn0;jn1|a1.sw.2;a0.ld|a0.cas.0.5;a1.add.1"],
+}
+
+
 def corpus_cases():
     out = []
     p = os.path.join(ROOT, "corpus", "prog.txt")
@@ -20,7 +42,7 @@ def known_ids(prop):
     return {k["id"]: k for k in load_known_findings() if k.get("kind") == "known" and prop in k.get("properties", [k.get("property")])}
 
 
-def run_prog_check(prop, props_files, tier, oracles, features=gen_prog.ALL, n_quick=4000, n_thorough=60000, rule="", extra=None, max_bodies=4, max_ops=6, scenarios=(0, 0), lifecycle=(0, 0), focus=None, focus_n=(0, 0)):
+def run_prog_check(prop, props_files, tier, oracles, features=gen_prog.ALL, n_quick=4000, n_thorough=60000, rule="", extra=None, max_bodies=4, max_ops=6, scenarios=(0, 0), lifecycle=(0, 0), focus=None, focus_n=(0, 0), exhaustive=None, exh_n=(0, 0)):
     """oracles: list of names among c08, c03, c13, objects:<PROP>.  Violations of the implementation's own traces
     are reported with the program as replay; a model/implementation disagreement without an oracle failure
     is reported as a broken correspondence (no-failing-input-found)."""
@@ -71,6 +93,37 @@ def run_prog_check(prop, props_files, tier, oracles, features=gen_prog.ALL, n_qu
             f[2] = gen_prog.gen_script(rng)
             cases.append(" ".join(f))
     ctx.dist("generated.focused", nfoc)
+    # systematic schedules: for small focused programs the model's choice tree is enumerated (all scripts with at most
+    # three departures from "first offered task", capped) and every script is run on both sides: narrow interleavings
+    # that random scripts hit with probability ~1% are covered
+    nexh = (exh_n[0] if tier == "quick" else exh_n[1]) if exhaustive else 0
+    if nexh:
+        small = []
+        tries = 0
+        while len(small) < nexh and tries < 50 * nexh:
+            tries += 1
+            c = gen_prog.gen_focus(rng, exhaustive[len(small) % len(exhaustive)])
+            f = c.split(" ")
+            if f[1] != "none" or sum(len(b.split(";")) for b in f[5].split("|")) > 26:
+                continue
+            small.append(f)
+        deep = []
+        for kind in dict.fromkeys(exhaustive):
+            for pr in SYSTEMATIC.get(kind, []):
+                o_, b_ = pr.split(" ")
+                deep.append(["prog", "none", "-", "1", o_, b_])
+        sc = ctx.run_model("prog", ["scripts %d 2 %s %s" % (200 if tier == "quick" else 1200, f[4], f[5]) for f in small]
+                           + ["scripts %d 2 %s %s" % (2500 if tier == "quick" else 20000, f[4], f[5]) for f in deep])
+        small = small + deep
+        nsys = 0
+        for f, line in zip(small, sc):
+            if line.startswith("ERR"):
+                continue
+            for script in line.split("|"):
+                cases.append("prog none %s %s %s %s" % (script, f[3], f[4], f[5]))
+                nsys += 1
+        ctx.dist("generated.systematic_programs", len(small))
+        ctx.dist("generated.systematic_schedules", nsys)
     nlc = lifecycle[0] if tier == "quick" else lifecycle[1]
     for i in range(nlc):
         cases.append(gen_prog.gen_lifecycle(rng))
